@@ -298,7 +298,7 @@ fn main() {
     rep.set_exhaustive(!a.quick());
     // random part: length-4 sequences (quick) and other builder bases / arbitrary prefixes / same host
     let mut rng = Rng::derive(a.seed, "C20", 0);
-    let n_random = a.pick(150_000, 400_000);
+    let n_random = a.pick(150_000, 3_000_000);
     for k in 0..n_random {
         let len = if a.quick() { 4 } else { rng.range(2, 6) as usize };
         let mut seq: Vec<Req> = (0..len).map(|_| *rng.pick(&cat)).collect();
